@@ -1,5 +1,5 @@
 use crate::Headers;
-use std::cell::Cell;
+use std::cell::{Cell, RefCell};
 use std::cmp::min;
 use std::io::{self, BufRead, BufReader, ErrorKind, Read, Take};
 
@@ -9,8 +9,19 @@ pub struct BodyReader<'a, R: Read> {
     encoding: BodyEncoding<'a, R>,
     /// a read has failed: the position in the stream is unknown from here on
     failed: bool,
-    /// set when the reader is dropped and the rest of the body could not be discarded
-    lost: Option<&'a Cell<bool>>,
+    /// where the reader reports, when it is dropped, what became of the rest of the stream
+    after: Option<&'a BodyAftermath>,
+    /// bytes behind the head of a request without a body (they belong to the next request)
+    unused_leftover: &'a [u8],
+}
+
+/// What the request loop needs to know once a request's body reader is gone.
+#[derive(Default)]
+pub(crate) struct BodyAftermath {
+    /// the rest of the body could not be discarded: the next request cannot be located
+    pub(crate) lost: Cell<bool>,
+    /// bytes that were read from the connection beyond the end of the body: the beginning of the next request
+    pub(crate) carry: RefCell<Vec<u8>>,
 }
 
 enum BodyEncoding<'a, R> {
@@ -60,16 +71,19 @@ impl<'a, R: Read> BodyReader<'a, R> {
         )))
     }
 
-    /// As `from_request`, for the server's request loop: `lost` is set when the reader is dropped and the rest of
-    /// the body could not be discarded (the next request cannot be located then).
+    /// As `from_request`, for the server's request loop: when the reader is dropped it reports in `after` whether
+    /// the rest of the body could be discarded, and hands back the bytes it holds beyond the end of the body.
     pub(crate) fn from_request_reporting(
         leftover: &'a [u8],
         stream: R,
         headers: &Headers,
-        lost: &'a Cell<bool>,
+        after: &'a BodyAftermath,
     ) -> Self {
         let mut reader = Self::from_request(leftover, stream, headers);
-        reader.lost = Some(lost);
+        reader.after = Some(after);
+        if let BodyEncoding::Empty(_) = reader.encoding {
+            reader.unused_leftover = leftover;
+        }
         reader
     }
 
@@ -78,7 +92,8 @@ impl<'a, R: Read> BodyReader<'a, R> {
         Self {
             encoding,
             failed: false,
-            lost: None,
+            after: None,
+            unused_leftover: &[],
         }
     }
 
@@ -144,6 +159,25 @@ impl<'a, R: Read> BodyReader<'a, R> {
         }
     }
 
+    /// After a complete discard: the bytes this reader has taken from the connection, or was given with the head,
+    /// that lie beyond the end of the body.
+    fn beyond_body(&self) -> Vec<u8> {
+        match &self.encoding {
+            BodyEncoding::Fixed(reader) => {
+                let mut v = reader.inner.buffer().to_vec();
+                v.extend_from_slice(reader.inner.get_ref().get_ref().unread_leftover());
+                v
+            }
+            BodyEncoding::Chunked(reader) => {
+                let mut v = reader.inner.buffer().to_vec();
+                v.extend_from_slice(reader.inner.get_ref().unread_leftover());
+                v
+            }
+            BodyEncoding::Eof(_) => Vec::new(),
+            BodyEncoding::Empty(_) => self.unused_leftover.to_vec(),
+        }
+    }
+
     #[inline]
     fn note<T>(&mut self, r: io::Result<T>) -> io::Result<T> {
         if r.is_err() {
@@ -205,6 +239,10 @@ impl<'a, R> StreamWithLeftover<'a, R> {
 
     fn inner(&self) -> &R {
         &self.stream
+    }
+
+    fn unread_leftover(&self) -> &[u8] {
+        &self.leftover[self.offset.min(self.leftover.len())..]
     }
 }
 
@@ -431,9 +469,12 @@ impl<R: Read> BufRead for ChunkedReader<'_, R> {
 
 impl<R: Read> Drop for BodyReader<'_, R> {
     fn drop(&mut self) {
-        if !self.drain() {
-            if let Some(lost) = self.lost {
-                lost.set(true);
+        let located = self.drain();
+        if let Some(after) = self.after {
+            if located {
+                *after.carry.borrow_mut() = self.beyond_body();
+            } else {
+                after.lost.set(true);
             }
         }
     }
